@@ -13,7 +13,11 @@ CASES = [
     Case('module_global_cache', 'pySDC/core/sweeper.py', "    def predict(self) -> None:\n", "    def predict(self) -> None:\n        global _LAST_PREDICT\n        _LAST_PREDICT = self\n", 'C19.R2', 'Sweeper.predict'),
     Case('global_rng_in_predict', 'pySDC/core/sweeper.py', "L.u[m] = P.dtype_u(init=P.init, val=self.rng.rand(1)[0])", "L.u[m] = P.dtype_u(init=P.init, val=np.random.rand(1)[0])", 'C19.R3', 'Sweeper.predict'),
     Case('steps_share_one_object', NONMPI, "                self.MS.append(dill.copy(self.MS[0]))\n", "                self.MS.append(self.MS[0])\n", 'C19.R4', 'controller_nonMPI.__init__'),
+    Case('dict_to_list_shortcut_returns_callers_dict', 'pySDC/core/step.py', "        max_val = 1\n        for _, v in in_dict.items():", "        if not any(type(v) is list for v in in_dict.values()):\n            return [in_dict]\n        max_val = 1\n        for _, v in in_dict.items():", 'C19.R7', 'Step.__dict_to_list', note='sweeper defaults are then written into the dictionary of the caller'),
+    Case('level_gets_callers_sweeper_params', 'pySDC/core/step.py', "                sweeper_params=descr_list[l]['sweeper_params'],", "                sweeper_params=descr['sweeper_params'],", 'C19.R7', 'Step.__generate_hierarchy'),
+    Case('restart_counter_zeroed_on_own_slot', 'pySDC/implementations/convergence_controller_classes/basic_restarting.py', "            MS[restart_from - S.status.slot].status.restarts_in_a_row = 0", "            S.status.restarts_in_a_row = 0", 'C19.R8', 'prepare_next_block', note='another coverage pattern than the recorded finding F20: reported as new'),
     # twins
+    Case('twin_dict_to_list_comprehension', 'pySDC/core/step.py', "        ld = [{} for _ in range(max_val)]", "        ld = [dict() for _ in range(max_val)]", benign=True),
     Case('twin_reset_order', LV, "        self.uold = [None] * (self.sweep.coll.num_nodes + 1)\n        self.f = [None] * (self.sweep.coll.num_nodes + 1)\n", "        self.f = [None] * (self.sweep.coll.num_nodes + 1)\n        self.uold = [None] * (self.sweep.coll.num_nodes + 1)\n", benign=True),
     Case('twin_instance_counter', 'pySDC/implementations/convergence_controller_classes/check_convergence.py', "        S.status.done = self.check_convergence(S, self)\n", "        self.calls = getattr(self, 'calls', 0) + 1\n        S.status.done = self.check_convergence(S, self)\n", benign=True, note='instance state, not class state'),
 ]
